@@ -23,4 +23,5 @@ def main():
     sys.exit(runner.check(a.what, tier=a.tier, seed=seed))
 
 
-main()
+if __name__ == "__main__":   # (worker processes are spawned and import this module)
+    main()
